@@ -18,7 +18,7 @@ for mf in sys.argv[1:]:
             det[tok[0]] = tok[1]
         matrix[sid] = det
 
-PORTED = {"C01c", "C03d", "C11d", "C08f", "C03a", "C04b", "C09a", "C10a", "C11a", "C14a", "C15c"}
+PORTED = {"C16a", "C08d", "C01c", "C03d", "C11d", "C08f", "C03a", "C04b", "C09a", "C10a", "C11a", "C14a", "C15c"}
 
 for sid in sorted(os.listdir(os.path.join(ROOT, "seeded"))):
     d = os.path.join(ROOT, "seeded", sid)
